@@ -39,7 +39,8 @@ REQUIRED = dict(monitors=['sigma-is-sum-of-components', 'component-is-xsec-times
                           'contribution-list-restored', 'store-contributions-equal-model-contrib'],
                 classes=['live:fault-before-evaluation', 'cia:he-zero', 'cia:trace-zero', 'cia:trace-zero-in-some-layers', 'contrib:CIA', 'contrib:Rayleigh', 'contrib:SimpleClouds', 'contrib:FlatMie', 'contrib:LeeMie',
                          'contrib:HydrogenIon', 'model:emission', 'early-exit-observed', 'species>=2', 'restricted-grid',
-                         'live:starts-at-zero', 'live:write-from-zero', 'live:write-to-zero', 'live:write-rescale', 'chemistry:makefree+file'])
+                         'live:starts-at-zero', 'live:write-from-zero', 'live:write-to-zero', 'live:write-rescale', 'chemistry:makefree+file', 'live:background-without-scattering-data',
+                         'live:contribution-yields-nothing-after-having-yielded'])
 _rec = {'yields': {}, 'sigma': {}}
 CUT = base.CUT
 
@@ -416,10 +417,29 @@ def wl_live(ctx, rng):
     rebuild.  After every write the recorded components are judged by the statement's algebra and the whole evaluation
     (every contribution's summed opacity, the names and values of its components, per-layer transmittance, depth) is
     compared with a freshly built model of the same parameters."""
-    spec = make_case(rng, n_active=int(rng.integers(1, 4)), hion=False)
+    noble = bool(rng.random() < 0.2)
+    spec = make_case(rng, n_active=1 if noble else int(rng.integers(1, 4)), hion=False)
+    if noble:
+        # a background gas without Rayleigh (or CIA) data and ONE trace species: when that species is written to zero a
+        # scattering contribution has NO component left to yield -- an empty selection on an object that had one before
+        from taurex.util.scattering import rayleigh_sigma_from_name
+        probe = np.array([1000.0])
+        fills = [m for m in ('Ne', 'Ar', 'Kr') if rayleigh_sigma_from_name(m, probe) is None]
+        act = [g for g in spec['gases'] if g['mol'] in spec['tables']]
+        if fills and act and rayleigh_sigma_from_name(act[0]['mol'], probe) is not None:
+            s2 = dict(spec, fill_gases=[fills[int(rng.integers(0, len(fills)))]], fill_ratio=[], gases=act[:1],
+                      contributions=[c for c in spec['contributions'] if (c if isinstance(c, str) else c['name']) != 'CIA'])
+            s2.pop('makefree', None)
+            if world.is_bound(s2):
+                spec = s2
+                ctx.observe('live:background-without-scattering-data')
+            else:
+                noble = False
+        else:
+            noble = False
     spec['gases'] = [{'kind': 'constant', 'mol': g['mol'], 'mix': float(10 ** rng.uniform(-9, -2))} for g in spec['gases']]
     names = [c if isinstance(c, str) else c['name'] for c in spec['contributions']]
-    if 'Rayleigh' not in names and rng.random() < 0.7:
+    if 'Rayleigh' not in names and (noble or rng.random() < 0.7):
         spec['contributions'] = list(spec['contributions']) + ['Rayleigh']
     if not spec['gases']:
         return
@@ -437,9 +457,10 @@ def wl_live(ctx, rng):
     if snap is None:
         return
     steps = []
+    yielded_before = {type(c).__name__: bool(_rec['sigma'].get(id(c), (None, []))[1]) for c in contribs}
     for rnd in range(int(rng.integers(1, 4))):
         cur = [g['mix'] for g in spec['gases'] if g['mol'] == victim][0]
-        if cur == 0.0 or rng.random() < 0.7:
+        if cur == 0.0 or rng.random() < (0.4 if noble else 0.7):
             v = float(10 ** rng.uniform(-7, -1.5))
         else:
             v = 0.0
@@ -471,6 +492,11 @@ def wl_live(ctx, rng):
         base.oracle(ctx, live, spec)
         live_rec = [(type(c).__name__, np.array(_rec['sigma'][id(c)][0]), [(n, a.copy()) for n, a in _rec['sigma'][id(c)][1]])
                     for c in contribs if id(c) in _rec['sigma']]
+        for k_, _, comps_ in live_rec:
+            if not comps_ and yielded_before.get(k_):
+                ctx.observe('live:contribution-yields-nothing-after-having-yielded')
+            if comps_:
+                yielded_before[k_] = True
         # the twin is built on the SAME cache contents (no reset: the live model must keep seeing the opacity objects
         # it has been using, as in a real process)
         m2 = world.build_model(spec0, 'transmission', new_path_method=spec0['new_method'])
